@@ -40,6 +40,9 @@ def project(log, desc, layer="L0"):
     if len(locks) < 2 or len(evs) != 1 or worker is None:
         raise ProjError("constructor of %s created locks=%r events=%r worker=%r" % (layer, locks, evs, worker))
     L, A, E = locks[0], locks[1], evs[0]
+    blocking = bool(desc["layers"][0][1].get("block"))
+    sub_phase = {}       # tid -> "block" (inside `_block_until_ready`'s section on the queue lock) | "enq"
+    in_cwait = {}
     cnt = desc["layers"][0][1].get("count", 1)
     dynamic = isinstance(cnt, list)
     countfn = "countfn%s" % layer[1:]
@@ -106,10 +109,14 @@ def project(log, desc, layer="L0"):
                 ambiguous_vals = [last_seen]
         elif k == "call" and e[2] == "submit":
             cur_submit[t] = e[3]
+            sub_phase[t] = "block" if blocking else "enq"
         elif k in ("ret", "raise") and e[2] == "submit":
             key = cur_submit.pop(t, None)
+            sub_phase.pop(t, None)
             if k == "ret" and key in key_of:
                 f_key[e[3]] = key_of[key]
+        elif k == "cwait":
+            in_cwait[t] = True
         elif k == "call" and e[2] == "cancel":
             cur_cancel[t] = (e[3], cancel_ret.get(i))
         elif k in ("ret", "raise") and e[2] == "cancel":
@@ -134,12 +141,16 @@ def project(log, desc, layer="L0"):
                 fname, r = cur_cancel[t]
                 if r is True and fname in f_key:
                     out.append("A cancelQ %d" % f_key[fname])
+            elif t in cur_submit and sub_phase.get(t) == "block":
+                in_cwait[t] = False      # the blocking protocol is replayed by `project_block` (Model/BlockProto.lean)
             elif t in cur_submit:
                 key_of[cur_submit[t]] = nenq
                 out.append("A enqueue %d" % nenq)
                 nenq += 1
         elif k == "rel" and e[2] == L:
             held[t] = held.get(t, 1) - 1
+            if t in cur_submit and sub_phase.get(t) == "block" and held[t] == 0 and not in_cwait.get(t):
+                sub_phase[t] = "enq"
             if t == worker and held[t] == 0 and sec is not None:
                 # the rest of the loop (the iterations after the last interleaved decrement, and the stop test) as one step;
                 # decrements that came after the last increment are placed after it (see DESIGN.md, C07 atomicity)
@@ -214,3 +225,120 @@ def project(log, desc, layer="L0"):
 
 def in_submit_section(t, cur_submit):
     return False
+
+
+def project_block(log, desc, layer="L0"):
+    """the same execution projected onto Model/BlockProto.lean: the blocking protocol of submit() (test / wait / wake on the queue's
+    condition, the sections that shrink the queue and notify, shutdown)"""
+    locks, evs, worker = ctor_objects(log, layer)
+    if len(locks) < 2 or worker is None:
+        raise ProjError("constructor of %s created locks=%r worker=%r" % (layer, locks, worker))
+    L, A = locks[0], locks[1]
+    G = None
+    inside = False
+    for e in log:
+        if e[1] == "ctor>" and e[2] == layer:
+            inside = True
+        elif e[1] == "ctor<" and e[2] == layer:
+            break
+        elif inside and e[1] == "locknew" and len(e) > 3 and e[3] == "ShutdownHelper":
+            G = e[2]
+    cnt = desc["layers"][0][1].get("count", 1)
+    dynamic = isinstance(cnt, list)
+    countfn = "countfn%s" % layer[1:]
+    cancel_ret, open_c = {}, {}
+    for i, e in enumerate(log):
+        t, k = e[0], e[1]
+        if k == "call" and e[2] == "cancel":
+            open_c[t] = i
+        elif k in ("ret", "raise") and e[2] == "cancel" and t in open_c:
+            cancel_ret[open_c.pop(t)] = (e[4] if k == "ret" else None)
+    out = ["S replay block"]
+    cur_submit, sub_phase, in_cwait, cur_cancel, in_shutdown = {}, {}, {}, {}, {}
+    tv_of = {}           # tid -> throttle_val of the submit in progress
+    eval_seq = 0         # number of count evaluations so far (any thread)
+    tv_seq = {}
+    f_key = {}
+    held = {}
+    popped = 0
+    shut = "no"
+
+    def next_of(t, i, kinds):
+        for j in range(i + 1, len(log)):
+            x = log[j]
+            if x[0] == t and x[1] in kinds:
+                return x
+        return None
+
+    def check_line(t, i):
+        nx = next_of(t, i, ("cwait", "rel"))
+        park = 1 if (nx is not None and nx[1] == "cwait") else 0
+        if dynamic and tv_seq.get(t) != eval_seq:
+            raise Ambiguous("`_last_throttle` was re-evaluated by another thread between this submitter's store and its read")
+        return "A check %s ? %d" % (optv(tv_of.get(t)), park)
+
+    for i, e in enumerate(log):
+        t, k = e[0], e[1]
+        if k in ("uret", "uraise") and e[2] == countfn:
+            eval_seq += 1
+            if t in cur_submit:
+                if k == "uraise":
+                    raise Ambiguous("count callable raised in a blocking submit (the value in force is the shared last one)")
+                tv_of[t] = None if e[4] == "None" else int(e[4])
+                tv_seq[t] = eval_seq
+        elif k == "call" and e[2] == "submit":
+            cur_submit[t] = e[3]
+            sub_phase[t] = "block"
+            if not dynamic:
+                tv_of[t] = cnt
+        elif k in ("ret", "raise") and e[2] == "submit":
+            key = cur_submit.pop(t, None)
+            sub_phase.pop(t, None)
+            if k == "ret":
+                f_key[e[3]] = key
+        elif k == "call" and e[2] == "cancel":
+            cur_cancel[t] = (e[3], cancel_ret.get(i))
+        elif k in ("ret", "raise") and e[2] == "cancel":
+            cur_cancel.pop(t, None)
+        elif k == "call" and e[2] == "shutdown":
+            in_shutdown[t] = True
+            if shut == "no":
+                shut = "begun"
+                out.append("A shutBegin")
+        elif k in ("ret", "raise") and e[2] == "shutdown":
+            in_shutdown.pop(t, None)
+        elif k == "rel" and G is not None and e[2] == G and in_shutdown.get(t) and shut == "begun":
+            shut = "done"
+            out.append("A shutFlip")
+        elif k == "cwait":
+            in_cwait[t] = True
+        elif k == "acq" and e[2] == L:
+            held[t] = held.get(t, 0) + 1
+            if held[t] > 1:
+                continue
+            if t == worker:
+                popped = 0
+            elif t in cur_submit and sub_phase.get(t) == "block":
+                if in_cwait.get(t):
+                    in_cwait[t] = False
+                    nx = next_of(t, i, ("cwoke",))
+                    out.append("A wake %d" % (0 if (nx is not None and nx[3]) else 1))
+                out.append(check_line(t, i))
+            elif t in cur_submit:
+                out.append("A enq")
+            elif t in cur_cancel:
+                fname, r = cur_cancel[t]
+                if r is True and fname in f_key:
+                    out.append("A cancelRm")
+            elif in_shutdown.get(t):
+                out.append("A shutNotify")
+        elif k == "rel" and e[2] == L:
+            held[t] = held.get(t, 1) - 1
+            if t == worker and held[t] == 0:
+                out.append("A pop %d" % popped)
+            elif t in cur_submit and sub_phase.get(t) == "block" and held[t] == 0 and not in_cwait.get(t):
+                sub_phase[t] = "enq"
+        elif k == "acq" and e[2] == A and t == worker and held.get(worker, 0) > 0:
+            popped += 1
+    out.append(".")
+    return out
